@@ -136,6 +136,12 @@ def run(ctx):
                 while j < len(log) and log[j][0] in ('eI', 'oI', 'R'):
                     seg.append(log[j])
                     j += 1
+                if j < len(log) and log[j][0] == 'EXC':
+                    # the reaction (or a decoder fed by a deliberately ignored set-compression) raised a real
+                    # exception while this packet was processed: that is C14's subject, and the connection
+                    # state is gone, so the rest of this trial is not judged here
+                    ctx.count('in.aborted-by-exception')
+                    break
                 shown = ','.join('R' if k == 'R' else ('e%d' % n if k == 'eI' else 'o%d' % n) for k, n in seg) or '-'
                 # ignored? = a listener flagged ignore was the last call
                 last_ign = bool(seg) and seg[-1][0] != 'R' and lst[seg[-1][1]][2]
